@@ -11,15 +11,12 @@ Record case := {
   k_vre : list Q; k_vim : list Q; k_inp : @input Q;
   (* out= argument, if given: its shape and whether its dtype equals the values' dtype *)
   k_outarg : option (list nat * bool);
-  (* measured variants of the two recorded defects (true = defect present) *)
-  k_int_raises : bool; k_mesh1_raises : bool;
   k_out : outc }.
 
 Definition tol : Q := 1 # 1000000000000.
 
 Definition call (k : case) (flat : list Q) : @outcome Q :=
-  interp_call {| int_raises := k_int_raises k; mesh1_raises := k_mesh1_raises k |}
-              (k_kind k) (k_ss k) (k_cvs k) (k_dt k) flat (k_inp k) (k_outarg k).
+  interp_call current (k_kind k) (k_ss k) (k_cvs k) (k_dt k) flat (k_inp k) (k_outarg k).
 
 (* complex values: the real and the imaginary parts are interpolated separately
    (Props.interpolation_linear_in_values) *)
@@ -54,3 +51,12 @@ Record rcase := { r_cvs : list (list Q); r_f : fexpr; r_ss : list scheme; r_mesh
 Definition rcheck (k : rcase) : bool :=
   Qsclose tol tol (r_out k)
     (peraxis_mesh (r_ss k) (r_cvs k) (vget (map (@length Q) (r_cvs k)) (collocate (feval (r_f k)) (r_cvs k))) (r_mesh k)).
+
+(* ---- calling conventions by shape: result shape / ValueError of interp(np.zeros(shape)) ---- *)
+Record hcase := { h_d : nat; h_shape : list nat; h_out : option (list nat) }.
+Definition hcheck (k : hcase) : bool :=
+  match array_call_shape (h_d k) (h_shape k), h_out k with
+  | None, None => true
+  | Some a, Some b => nats_eqb a b
+  | _, _ => false
+  end.
